@@ -104,6 +104,7 @@ struct Harness {
   virtual Outcome execute(const Plan &p) = 0;
   // candidate simplifications of a failing plan, most aggressive first
   virtual std::vector<Plan> shrink(const Plan &p) { (void)p; return {}; }
+  virtual int minimise_budget(const std::string &cls) { (void)cls; return tier == "quick" ? 120 : 400; }
 };
 
 struct Summary {
@@ -202,7 +203,7 @@ inline int harness_main(Harness &h, int argc, char **argv) {
     Outcome o = h.execute(p);
     S.runs++; S.steps_total += o.steps; if (o.steps > S.steps_max) S.steps_max = o.steps; S.switches_total += o.switches; S.threads_total += o.threads;
     S.strategies[o.strategy]++;
-    for (auto &c : o.counters) S.counters[c.first] += c.second;
+    for (auto &c : o.counters) { if (c.first.compare(0, 4, "max.") == 0) { if (c.second > S.counters[c.first]) S.counters[c.first] = c.second; } else S.counters[c.first] += c.second; }
     if (o.infra) { S.infra++; fprintf(out, "I %llu %s\n", (unsigned long long)seed, jesc(o.msg).c_str()); fflush(out); continue; }
     if (lines) fprintf(out, "R %llu %d %016llx %016llx %016llx %d\n", (unsigned long long)seed, o.violation ? 1 : 0, (unsigned long long)o.hash,
             (unsigned long long)std::hash<std::string>()(o.cfg), (unsigned long long)o.sched_sig, o.nontrivial ? 1 : 0);
@@ -225,7 +226,7 @@ inline int harness_main(Harness &h, int argc, char **argv) {
           Outcome oq = h.execute(q);
           if (oq.violation && oq.cls == o.cls) p = q;
         }
-        Plan m = minimise(h, p, o.cls, h.tier == "quick" ? 120 : 400, &used);
+        Plan m = minimise(h, p, o.cls, h.minimise_budget(o.cls), &used);
         Outcome om = h.execute(m);
         if (!(om.violation && om.cls == o.cls)) { m = p; om = o; }
         m.set("expect.class", om.cls); m.set("expect.message", om.msg);
